@@ -7,12 +7,13 @@
     ([KUnknown]) must be answered with an error. *)
 From Coq Require Import String Ascii List Bool Arith NArith ZArith.
 From Raven Require Import Base.GoStr Model.Search.
+From Raven Require Spec.SeqSet.
 Import ListNotations.
 Local Open Scope Z_scope.
 
-(** numerals are kept as digit strings, exactly as they are printed *)
-Inductive snum := SNum (d : str) | SStar.
-Inductive sitem := SOne (a : snum) | SRange (a b : snum).
+(** sequence sets and UID sets: the AST, concrete syntax and denotation of
+    Spec/SeqSet.v (shared with C09): [Spec.SeqSet.seqset], [print], [denote s top i] *)
+Notation seqset := Spec.SeqSet.seqset.
 Inductive flagkey := FAnswered | FDeleted | FDraft | FFlagged | FSeen | FRecent.
 Inductive hdrkey := HBcc | HCc | HFrom | HSubject | HTo.
 (** day digits, month 1..12, year digits *)
@@ -24,7 +25,7 @@ Inductive key :=
 | KUn (f : flagkey)             (* UNANSWERED ... UNSEEN, OLD *)
 | KNew
 | KKeyword (w : str) | KUnkeyword (w : str)
-| KSeq (s : list sitem) | KUid (s : list sitem)
+| KSeq (s : seqset) | KUid (s : seqset)
 | KHdr (h : hdrkey) (v : str) | KHeader (f v : str) | KBody (v : str) | KText (v : str)
 | KLarger (n : str) | KSmaller (n : str)
 | KDate (sent : bool) (c : dcmp) (d : sdate)
@@ -57,13 +58,6 @@ Definition hdr_field (h : hdrkey) : str :=
 Definition hdr_kw (h : hdrkey) : kw :=
   match h with HBcc => KwBCC | HCc => KwCC | HFrom => KwFROM | HSubject => KwSUBJECT | HTo => KwTO end.
 
-Definition print_snum (a : snum) : str := match a with SNum d => d | SStar => [star] end.
-Definition print_item (it : sitem) : str :=
-  match it with
-  | SOne a => print_snum a
-  | SRange a b => print_snum a ++ colon :: print_snum b
-  end.
-Definition print_set (s : list sitem) : str := join (map print_item s) (S_ ",").
 Definition quote (v : str) : str := dq :: v ++ [dq].
 
 Definition month_print : list str :=
@@ -83,8 +77,8 @@ Fixpoint key_tokens (k : key) : list str :=
   | KNew => [S_ "NEW"]
   | KKeyword w => [S_ "KEYWORD"; w]
   | KUnkeyword w => [S_ "UNKEYWORD"; w]
-  | KSeq s => [print_set s]
-  | KUid s => [S_ "UID"; print_set s]
+  | KSeq s => [Spec.SeqSet.print s]
+  | KUid s => [S_ "UID"; Spec.SeqSet.print s]
   | KHdr h v => [hdr_token h; quote v]
   | KHeader f v => [S_ "HEADER"; quote f; quote v]
   | KBody v => [S_ "BODY"; quote v]
@@ -102,17 +96,6 @@ Definition prog_tokens (ks : list key) : list str := flat_map key_tokens ks.
 Definition print_prog (ks : list key) : str := join (prog_tokens ks) [sp].
 
 (** ** semantics *)
-Definition snum_val (star_val : Z) (a : snum) : Z :=
-  match a with SNum d => digits_val d 0 | SStar => star_val end.
-Definition item_has (star_val : Z) (it : sitem) (x : Z) : bool :=
-  match it with
-  | SOne a => x =? snum_val star_val a
-  | SRange a b =>
-      let va := snum_val star_val a in let vb := snum_val star_val b in
-      (Z.min va vb <=? x) && (x <=? Z.max va vb)
-  end.
-Definition set_has (star_val : Z) (s : list sitem) (x : Z) : bool := existsb (fun it => item_has star_val it x) s.
-
 (** when two flag names denote the same flag — ONE definition: RFC 3501 section 9,
     flag names are case-insensitive (ASCII).  Tied to Model.Search.flag_eqb by
     Proof/SearchAtoms.flag_cmp_agree. *)
@@ -218,14 +201,13 @@ Fixpoint spec_eval (k : key) (i : Z) (m : smsg) {struct k} : bool :=
   | KNew => has_flag m flag_recent && negb (has_flag m flag_seen)
   | KKeyword w => has_flag m w
   | KUnkeyword w => negb (has_flag m w)
-  | KSeq s => set_has nseq s i
-  | KUid s => set_has maxuid s (s_uid m)
+  | KSeq s => Spec.SeqSet.denote s nseq i
+  | KUid s => Spec.SeqSet.denote s maxuid (s_uid m)
   | KDate false c d => match sdate_val d with Some b => date_rel c (s_idate m) b | None => false end
   | KHdr _ _ | KHeader _ _ | KBody _ | KText _ | KLarger _ | KSmaller _ | KDate true _ _ => spec_text_key k m
   | KNot k' => negb (spec_eval k' i m)
   | KOr a b => spec_eval a i m || spec_eval b i m
-  | KGroup l => (fix all (l : list key) : bool :=
-                   match l with [] => true | k' :: l' => spec_eval k' i m && all l' end) l
+  | KGroup l => forallb (fun k' => spec_eval k' i m) l
   | KUnknown _ => false
   end.
 
@@ -237,7 +219,7 @@ Fixpoint supported (k : key) : bool :=
   | KUnknown _ => false
   | KNot k' => supported k'
   | KOr a b => supported a && supported b
-  | KGroup l => (fix all (l : list key) : bool := match l with [] => true | k' :: l' => supported k' && all l' end) l
+  | KGroup l => forallb supported l
   | _ => true
   end.
 
@@ -246,7 +228,7 @@ Fixpoint number_from {A} (i : Z) (l : list A) : list (Z * A) :=
   match l with [] => [] | x :: l' => (i, x) :: number_from (i + 1) l' end.
 Definition numbered {A} (l : list A) : list (Z * A) := number_from 1 l.
 
-Definition max_uid (mb : list smsg) : Z := fold_left Z.max (map s_uid mb) 0.
+Definition max_uid (mb : list smsg) : Z := Spec.SeqSet.max_uid (map s_uid mb).
 
 Inductive sresult := SErr | SOk (l : list Z).
 
@@ -263,9 +245,12 @@ Definition spec_uid_search (ks : list key) (mb : list smsg) : sresult :=
   if forallb supported ks then SOk (spec_uid_search_list ks mb) else SErr.
 
 (** what the server sees of the client's view: flags joined by one space *)
-Definition to_msg (im : Z * smsg) : msg :=
-  let '(i, m) := im in mk_msg i (s_uid m) (join (s_flags m) [sp]) (s_text m) (s_idate m).
-Definition to_msgs (mb : list smsg) : list msg := map to_msg (numbered mb).
+(** [n]: number of messages, [mu]: UID of the last one (what HandleSearch stores in every entry) *)
+Definition to_msg_in (n mu : Z) (im : Z * smsg) : msg :=
+  let '(i, m) := im in mk_msg i (s_uid m) (join (s_flags m) [sp]) (s_text m) (s_idate m) n mu.
+Definition last_uid (mb : list smsg) : Z := s_uid (last mb (mk_smsg 0 [] [] (0, 0, 0))).
+Definition to_msg (mb : list smsg) : Z * smsg -> msg := to_msg_in (Z.of_nat (length mb)) (last_uid mb).
+Definition to_msgs (mb : list smsg) : list msg := map (to_msg mb) (numbered mb).
 
 (** executable comparison of a reply with the specification *)
 Definition list_z_eqb (a b : list Z) : bool :=
